@@ -157,13 +157,13 @@ def expected_window_series(G, a_l, a_r, b_l=None, b_r=None, exp=None):
                 vals[i] = o_exp_lin(G.pos(base + i), (G.pos(base + n - ar), yk), (G.pos(base + n - br), zrb), exp)
             for i in range(n - br, n):
                 vals[i] = lin(G.pos(base + i), (G.pos(base + n - br), zrb), (G.pos(base + n), z1))
-            if z1 is not None and ar + br > 0 or z1 is not None:
-                vals[n] = z1 if z1 is not None else vals[n]
+            vals[n] = z1 if z1 is not None else vals[n]
         for i in range(n + 1):
-            t = base + i
-            if i == n and out[t] is not None:
-                pass
-            out[t] = vals[i]
+            out[base + i] = vals[i]
+    # The very last sample is the start of the (virtual) interval after the series, not an interior border:
+    # the documentation does not pin it (the linear strategies put the border interpolation there, the exp
+    # strategies leave the last average), so no expectation is attached to it.
+    out[(m - 1) * n] = None
     return out
 
 
